@@ -23,6 +23,8 @@ type Obligation struct {
 	Goal  string
 	Guard string // reachability condition of the program point (for the vacuity re-check)
 	N     int    // number of background assertions that precede this obligation's program point
+	RetTerms   []string // replay (class post): SMT terms of the returned values at this return
+	ParamSubst map[string]string // replay: parameter name -> SMT constant holding its value at the enclosing loop head
 	Props []string // properties this obligation is attributed to by its tag (Cxx.*), else empty
 }
 
@@ -836,6 +838,29 @@ func (e *Enc) oblige(class, desc, tag string, pos token.Pos, goal string) {
 	}
 	o := &Obligation{Name: name, Func: e.name, Class: class, Tag: tag, Desc: desc, Pos: p, Goal: goal, Guard: e.pendingGuard, N: len(e.asserts)}
 	e.pendingGuard = ""
+	// replay heuristic: inside a loop whose head phi starts from a parameter (b = b[k:] style parsers), the state of the
+	// arbitrary iteration is itself a legal initial argument: read the parameter from the phi
+	for _, li := range e.inLoop[e.curBlock] {
+		for _, ins := range li.head.Instrs {
+			phi, ok := ins.(*ssa.Phi)
+			if !ok {
+				break
+			}
+			for i, p := range li.head.Preds {
+				if li.head.Dominates(p) {
+					continue
+				}
+				if par, isP := phi.Edges[i].(*ssa.Parameter); isP {
+					if v, known := e.vals[phi]; known {
+						if o.ParamSubst == nil {
+							o.ParamSubst = map[string]string{}
+						}
+						o.ParamSubst[par.Name()] = v.T
+					}
+				}
+			}
+		}
+	}
 	if strings.HasPrefix(tag, "C") && len(tag) >= 3 {
 		if k := strings.Index(tag, "."); k > 0 {
 			o.Props = []string{tag[:k]}
